@@ -113,6 +113,7 @@ def replay_program(rep, prog, check):
         op, left = st["op"], st["left"]
         x = None if op in UNARY else build(st["x"])
         exp = st["res"]
+        snap = (describe(acc), None if x is None else describe(x))
         try:
             if op in UNARY:
                 got = UNARY[op](acc)
@@ -124,6 +125,11 @@ def replay_program(rep, prog, check):
         except Exception as e:  # noqa
             got, raised = None, e
         trail.append({"op": op, "operand": st["x"] if op not in UNARY else None, "acc_is_left": left})
+        if snap != (describe(acc), None if x is None else describe(x)):
+            rep.violation(check, "arith:operand-modified:" + op, {"program": {"init": prog["init"], "steps": trail},
+                                                                  "before": snap, "after": (describe(acc), None if x is None else describe(x))},
+                          replay={"kind": "units-program", "program": prog})
+            return "violation"
         detail = {"program": {"init": prog["init"], "steps": trail}, "expected": exp,
                   "got": describe(got) if raised is None else {"raised": repr(raised)[:200]}}
         xkind = "-" if op in UNARY else st["x"]["k"]
@@ -210,7 +216,8 @@ def run(tier, selftest=False, only=None):
     for p in progs:
         nontriv = any(st["res"]["k"] == "err" or (st["x"].get("sys") and st["x"]["sys"] != p["init"]["sys"]) for st in p["steps"])
         rep.case(p, nontrivial=nontriv)
-        stats[replay_program(rep, p, "program")] += 1
+        with rep.guard("program", p):
+            stats[replay_program(rep, p, "program")] += 1
     rep.traces = len(progs)
     rep.extra["programs"] = stats
     rep.extra["steps"] = sum(len(p["steps"]) for p in progs)
